@@ -21,9 +21,8 @@ def only_cfgs(rule, cfgs):
     """Run a rule only on some of the loaded configurations."""
 
     def run(progs, tier):
-        sub = {c: p for c, p in progs.items() if c in cfgs}
-        if not sub:
-            sub = dict(list(progs.items())[:1])
+        names = [c for c in progs.keys() if c in cfgs] or list(progs.keys())[:1]
+        sub = progs.subset(names) if hasattr(progs, "subset") else {c: progs[c] for c in names}
         return rule(sub, tier)
 
     run.__name__ = getattr(rule, "__name__", "rule")
@@ -33,7 +32,8 @@ def only_cfgs(rule, cfgs):
 Q = ["cli", "simd"]
 TH = F.THOROUGH_CONFIGS
 
-T1_ALL = _lazy("t1", "rule_t1", floor={"cli": 21, "simd": 19, "*": 16})
+# crossings counted on today's tree, per configuration
+T1_ALL = _lazy("t1", "rule_t1", floor={"cli": 21, "default": 21, "simd": 26, "portable": 21, "scalar": 11, "nodefault": 4, "serde": 21, "full": 26, "*": 4})
 
 REGISTRY = {}
 
@@ -68,8 +68,10 @@ reg(
     "translation_validation",
     "Simple-cursor classifier and cascade of every engine (reference builder, SSE2, AVX2) tabulated over all 256 bytes x 3 "
     "states from MIR and compared with the reference and the documented machine; lane-position agreement; T1 for dispatch. "
-    "Navigation arithmetic of SimpleJsonIndex is not decided.",
-    [only_cfgs(_lazy("jsonsemi", "rule_json", kind="simple"), ["cli"]), T1_ALL],
+    "SIMPLETAB evaluates SimpleJsonIndex::build and its navigation (structural_count/pos/index, find_close, skip_value) from "
+    "MIR over a family of valid documents (all value kinds, structural characters and escapes inside strings, > 64 structural "
+    "bytes, both select dispatch arms) against a reference scanner: every k, every byte position, every open bracket, every value start.",
+    [only_cfgs(_lazy("jsonsemi", "rule_json", kind="simple"), ["cli"]), only_cfgs(_lazy("simpletab", "rule_simple"), ["cli"]), T1_ALL],
     quick=["cli"],
     technique="finite-domain abstract interpretation of MIR fragments + target-feature dominance dataflow",
     design_ref="§4 C32",
@@ -143,8 +145,11 @@ reg(
 )
 reg(
     "C01",
-    "other",
-    "Structural clauses of BitVec exactness: popcount strategies (portable SWAR on unit-byte and saturated words, AVX2 block kernel lanes) "
+    "translation_validation",
+    "The BitVec structure is evaluated from MIR (BVTAB): with_config at select sample rates 256 and 3 (thorough: 1, 3, 100, 256, 4096), then get / rank1 / rank0 / select1 / select0 / "
+    "count_ones / count_zeros for every position and rank incl. out-of-range ones, on a family of word vectors (boundary patterns in 1-2 words at lengths 0,1,63,64,65,127,128; vectors "
+    "crossing the 8-word scan block and the 512-bit rank block; long zero runs; stray bits past len; surplus storage words), against counting bits one at a time, under both outcomes "
+    "of the AVX2 / fast-BMI2 detectors; the thorough tier repeats it in the simd and portable-popcount configurations. Bounded-exhaustive, not all inputs. Plus structural clauses: popcount strategies (portable SWAR on unit-byte and saturated words, AVX2 block kernel lanes) "
     "equal popcount; dispatch of AVX2/BMI2/AVX-512 kernels is dominated by detection (T1) in the default and simd builds. "
     "Directory arithmetic and sampled select are not decided.",
     [
@@ -152,6 +157,7 @@ reg(
         _lazy("tables", "rule_popcount_portable_units"),
         only_cfgs(_lazy("structrules", "rule_tailmask", scope=r"^bits::", floor=1), ["cli"]),
         only_cfgs(_lazy("structrules", "rule_sampleidx", floor=9), ["cli"]),
+        _lazy("bvtab", "rule_bitvec_tiered"),
         T1_ALL,
     ],
     quick=["cli", "simd"],
@@ -191,8 +197,12 @@ reg(
 
 reg(
     "C04",
-    "other",
-    "Structural clauses of balanced-parentheses navigation: the four BP byte tables equal their excess-scan definition on every entry (TABLE); "
+    "translation_validation",
+    "The balanced-parentheses structure is evaluated from MIR (BPTAB): constructors new / borrowed from_words / new_with_cspoppy / assemble_with_rate at rates 1,3,100,256, then "
+    "find_close, find_open, enclose/parent, excess, next_sibling, first_child, subtree_size, rank1/rank0, select0/select1, total_ones/zeros on every bit string up to a bounded "
+    "length (balanced or not, with and without stray bits past len, and with a surplus storage word) and on boundary families crossing the word, the 8-word rank block, the 32-word L1 "
+    "block and (thorough) the 1024-word L2 block, against linear excess-scan definitions; both in-word select paths are exercised. Bounded-exhaustive, not all inputs. "
+    "Plus structural rules: the four BP byte tables equal their excess-scan definition on every entry (TABLE); "
     "every sampled-select reader derives its sample index as k / rate with the builder's rate, or the rate is established to be a power of two (SAMPLEIDX); "
     "the partial word is selected from `len`, not from the container length (TAILMASK; three known-finding sites in trees::bp); SSE4.1 builders under `simd` are "
     "dominated by detection (T1). RangeMin skipping and rank/select arithmetic are not decided.",
@@ -201,6 +211,7 @@ reg(
         only_cfgs(_lazy("structrules", "rule_sampleidx", floor=9), ["cli"]),
         only_cfgs(_lazy("structrules", "rule_tailmask", scope=r"^trees::bp::", floor=3), ["cli"]),
         only_cfgs(_lazy("structrules", "rule_ctor_siblings"), ["cli"]),
+        only_cfgs(_lazy("bptab", "rule_bp"), ["cli"]),
         T1_ALL,
     ],
     quick=["cli", "simd"],
@@ -312,17 +323,21 @@ reg(
 
 reg(
     "C03",
-    "other",
-    "Structural clauses of the Elias-Fano cursor: on every path that stores a position to `high_pos`, that position is trailing_zeros of the value kept in "
+    "translation_validation",
+    "The Elias-Fano sequence is evaluated from MIR (EFTAB): build, then len / universe / get(i) for every i / predecessor(v) around every sampled element / iteration, and "
+    "cursors driven through every operation sequence of length 2 (3 in the thorough tier) over advance_one, advance_by(k) for k in {0,1,2,3,5,63,64,65,70}, seek and cursor_from, "
+    "against the plain-sequence model, on a family of sequences (empty, singletons, duplicates, dense, sparse with all-zero high-bits words, up to u32::MAX, lengths crossing the "
+    "64-bit word and the select sample rate). Bounded-exhaustive, not all inputs. Plus structural clauses of the cursor: on every path that stores a position to `high_pos`, that position is trailing_zeros of the value kept in "
     "`remaining_bits`, or `remaining_bits` is masked by a mask computed from that position (COUPLED: the representation invariant 'lowest set bit of remaining_bits is "
     "the current element' is re-established by every mutation path of advance_one / advance_by / seek / cursor / cursor_from); the sampled select reader divides by the "
     "builder's rate (SAMPLEIDX). Encoding/decoding arithmetic and predecessor search are not decided.",
     [
         only_cfgs(_lazy("structrules", "rule_cursor_coupling"), ["cli"]),
         only_cfgs(_lazy("structrules", "rule_sampleidx", floor=9), ["cli"]),
+        only_cfgs(_lazy("eftab", "rule_ef"), ["cli"]),
     ],
     quick=["cli"],
-    technique="def-use coupling (typestate) rule over MIR field stores; sample-index derivation rule",
+    technique="bounded-exhaustive finite-domain evaluation of the structure's MIR incl. cursor histories; def-use coupling (typestate) rule over MIR field stores; sample-index derivation rule",
 )
 
 
